@@ -133,6 +133,36 @@ pub fn big_indexed_store_case(n: u32) -> Case {
     }
 }
 
+/// more than 1024 distinct values in a store (the parallel duplicate search of the indexed store),
+/// followed by entries duplicating early, middle and late values
+pub fn store_with_late_duplicates(kind: StoreKind, fixed: u8, n: u32) -> Case {
+    let rv = |i: u32| RawVal { x: i as u64, arr: ArrSpec { base: 10, cut: i, tweak: 0 } };
+    let mut entries: Vec<RawEntry> = (0..n).map(|i| RawEntry { variant: 0, vals: vec![rv(i), rv(i)] }).collect();
+    for k in 0..200u32 {
+        let target = match k % 4 {
+            0 => k % 1024,                          // early
+            1 => 1024 + (k * 7) % (n - 1024),       // beyond the first chunk
+            2 => n - 1 - (k % 50),                  // late
+            _ => 1023 + (k % 3),                    // around the chunk boundary
+        };
+        entries.push(RawEntry { variant: 0, vals: vec![rv(target), rv(n + k)] });
+    }
+    Case {
+        packaging: None,
+        dir: DirSpec {
+            vstores: vec![kind],
+            estores: vec![EStoreSpec {
+                common: vec![PropSpec { kind: PKind::Array { fixed, store: 0 }, constant: false }, PropSpec { kind: PKind::UInt, constant: false }],
+                variants: vec![],
+                sort: vec![],
+                entries,
+                windows: vec![Win::Whole, Win::Suffix(60000)],
+            }],
+            linked: false,
+        },
+    }
+}
+
 impl Property for C02 {
     type Case = Case;
     const ID: &'static str = "C02";
@@ -180,6 +210,10 @@ impl Property for C02 {
             big_indexed_store_case(257),
             big_indexed_store_case(21840),
             big_indexed_store_case(21846),
+            store_with_late_duplicates(StoreKind::Indexed, 0, 1300),
+            store_with_late_duplicates(StoreKind::Indexed, 2, 2100),
+            store_with_late_duplicates(StoreKind::Plain, 0, 1300),
+            store_with_late_duplicates(StoreKind::Plain, 3, 2100),
         ];
         if tier == Tier::Thorough {
             v.push(big_indexed_store_case(65535));
